@@ -122,8 +122,8 @@ func (prop) Describe() core.Description {
 		},
 		RealComponents: []string{"encoding/igc (Encoder.Encode, Read and its parser)", "go-geom LineString", "stdlib bufio.Scanner, fmt, regexp, time"},
 		StubComponents: []string{"io.Writer under the encoder (simio.Writer)", "the medium between writer and reader (line and byte edits)", "io.Reader under the decoder (simio.Reader: chunking, stalls incl. unbounded, data+EOF, error at offset, truncation)"},
-		FaultKinds:     []string{"read-split", "read-stall", "read-data+eof", "read-error", "read-truncate", "stall-forever", "line-drop", "line-dup", "line-swap", "line-tear", "line-long", "byte-edit", "write-fail"},
-		Probes:         []string{"probe:year<2000", "probe:year-rollover", "probe:day-rollover", "probe:lat==+-90", "probe:lon==+-180", "probe:alt-clamped", "probe:fractional-second", "probe:I-record", "probe:I-record-extends-B", "probe:B-shorter-than-announced", "probe:line>64KiB", "probe:torn-inside-B", "probe:noise-before-A", "probe:record-errors-returned", "probe:prefix-tracks", "probe:encoder-reused", "probe:local-zone-not-utc", "probe:extra-ordinates-nonzero", "probe:first-result-rechecked-after-later-decodes", "probe:headers-checked", "probe:decode-after-an-unrelated-stream", "probe:consecutive-fixes-with-identical-records"},
+		FaultKinds:     []string{"read-split", "read-stall", "read-data+eof", "read-error", "read-truncate", "stall-forever", "line-drop", "line-dup", "line-swap", "line-tear", "line-long", "line-garble", "byte-edit", "write-fail"},
+		Probes:         []string{"probe:year<2000", "probe:year-rollover", "probe:day-rollover", "probe:lat==+-90", "probe:lon==+-180", "probe:alt-clamped", "probe:fractional-second", "probe:I-record", "probe:I-record-extends-B", "probe:B-shorter-than-announced", "probe:line>64KiB", "probe:torn-inside-B", "probe:noise-before-A", "probe:record-errors-returned", "probe:record-errors>16", "probe:prefix-tracks", "probe:encoder-reused", "probe:local-zone-not-utc", "probe:extra-ordinates-nonzero", "probe:first-result-rechecked-after-later-decodes", "probe:headers-checked", "probe:decode-after-an-unrelated-stream", "probe:consecutive-fixes-with-identical-records"},
 	}
 }
 
@@ -509,6 +509,11 @@ func (prop) Generate(r *prng.Rand, phase string) any {
 	for i := r.Pick(2, 3, 2, 1); i > 0; i-- {
 		k := []string{"drop", "dup", "swap", "tear", "long"}[r.Pick(4, 4, 4, 4, 1)]
 		s.LineEdits = append(s.LineEdits, LineEdit{K: k, I: r.Intn(nl), J: r.Intn(nl + 40)})
+	}
+	if r.Chance(0.06) {
+		// a badly damaged file: every J-th record from I on has a character
+		// that does not belong there (many record errors in one decode)
+		s.LineEdits = append(s.LineEdits, LineEdit{K: "garble", I: r.Intn(3), J: 1 + r.Intn(2)})
 	}
 	for i := r.Pick(3, 2, 2, 1); i > 0; i-- {
 		e := simio.Edit{Off: r.Intn(approx)}
@@ -978,6 +983,18 @@ func faulty(s *Scenario, log *core.Log) core.Result {
 				lines[i] = lines[i][:cut] // the line feed is lost too: joins with the next record
 				res.Count("line-tear", 1)
 			}
+		case "garble":
+			step := e.J%3 + 1
+			n := 0
+			for k := e.I % 3; k < len(lines); k += step {
+				if len(lines[k]) > 12 && lines[k][0] == 'B' {
+					lines[k] = lines[k][:9] + "x" + lines[k][10:]
+					n++
+				}
+			}
+			if n > 0 {
+				res.Count("line-garble", 1)
+			}
 		case "long":
 			body := strings.TrimRight(lines[i], "\r\n")
 			lines[i] = body + strings.Repeat("7", 66000+e.J) + eol
@@ -1071,17 +1088,47 @@ func faulty(s *Scenario, log *core.Log) core.Result {
 	}
 	if err != nil {
 		var list igc.Errors
-		if r.Errs == 0 && r.Stalls == 0 && (!errors.As(err, &list) || len(list) == 0) {
+		isList := errors.As(err, &list)
+		if r.Errs == 0 && r.Stalls == 0 && (!isList || len(list) == 0) {
 			// (with a failing or stalling reader an I/O error of another type
 			// would be a legitimate thing to return: nothing is demanded then)
 			res.Fail("errors-not-a-list", "errors-not-a-list", "Read returned the error %T, not the list of record errors (igc.Errors)", err)
 			return res
 		}
 		res.Count("probe:record-errors-returned", 1)
-		var msg string
-		if p := core.Guard(func() { msg = err.Error() }); p != "" {
+		// rendering the error is a query: the list of record errors is the
+		// same before and after, and the text is the same twice
+		var each []string
+		for _, e := range list {
+			if e == nil {
+				res.Fail("errors-not-a-list", "errors-not-a-list:nil-entry", "the list of record errors holds a nil entry")
+				return res
+			}
+			each = append(each, e.Error())
+		}
+		if len(list) > 16 {
+			res.Count("probe:record-errors>16", 1)
+		}
+		var msg, msg2 string
+		if p := core.Guard(func() { msg = err.Error(); msg2 = err.Error() }); p != "" {
 			res.Fail("panic", "panic:error-render:"+core.PanicSite(p), "rendering the returned error panicked: %s", p)
 			return res
+		}
+		if msg != msg2 {
+			res.Fail("error-render-changes-errors", "error-render-changes-errors:text", "the returned error renders differently the second time:\n%s\n%s", oneLine(msg), oneLine(msg2))
+			return res
+		}
+		var list2 igc.Errors
+		errors.As(err, &list2)
+		if len(list2) != len(each) {
+			res.Fail("error-render-changes-errors", "error-render-changes-errors", "after Error() the list of record errors has %d entries, before %d", len(list2), len(each))
+			return res
+		}
+		for i, e := range list2 {
+			if e == nil || e.Error() != each[i] {
+				res.Fail("error-render-changes-errors", "error-render-changes-errors", "after Error() on the returned list, record error %d of %d is %v; before it was %q", i, len(each), e, each[i])
+				return res
+			}
 		}
 		log.Addf("errors: %d bytes of text", len(msg))
 	}
@@ -1090,7 +1137,7 @@ func faulty(s *Scenario, log *core.Log) core.Result {
 	}
 	log.Addf("result: %d fixes, %d headers", t.LineString.NumCoords(), len(t.Headers))
 	anyFault := fired > 0 || r.Splits+r.Stalls+r.DataEOFs+r.Errs+r.Truncs > 0
-	for _, k := range []string{"line-drop", "line-dup", "line-swap", "line-tear", "line-long"} {
+	for _, k := range []string{"line-drop", "line-dup", "line-swap", "line-tear", "line-long", "line-garble"} {
 		if res.Counters[k] > 0 {
 			anyFault = true
 		}
